@@ -1465,6 +1465,17 @@ impl BufferParser for Parser {
     }
 }
 
+#[cfg(icy_engine_verif)]
+impl Parser {
+    /// verification hook: read access to the private state a DCS sequence goes through
+    /// (name of the state, parsed numbers, macro table sorted by id)
+    pub fn verif_dcs_view(&self) -> (String, Vec<i32>, Vec<(usize, String)>) {
+        let mut macros: Vec<(usize, String)> = self.macros.iter().map(|(k, v)| (*k, v.clone())).collect();
+        macros.sort();
+        (format!("{:?}", self.state), self.parsed_numbers.clone(), macros)
+    }
+}
+
 impl Parser {
     fn invoke_macro_by_id(&mut self, buf: &mut Buffer, current_layer: usize, caret: &mut Caret, id: i32) {
         let m = if let Some(m) = self.macros.get(&(id as usize)) {
